@@ -23,7 +23,7 @@ fn run_closed_pipe(rg: &Path, dir: &Path, args: &[&str], take: usize) -> Out {
     let mut c = Command::new(rg).args(args).current_dir(dir).stdin(Stdio::null()).stdout(Stdio::piped()).stderr(Stdio::piped()).spawn().expect("rg runs");
     let mut so = c.stdout.take().unwrap();
     let mut buf = vec![0u8; take];
-    let _ = so.read_exact(&mut buf);
+    if take > 0 { let _ = so.read_exact(&mut buf); }
     drop(so);
     let mut stderr = vec![];
     c.stderr.take().unwrap().read_to_end(&mut stderr).unwrap();
@@ -97,6 +97,9 @@ fn main() {
         // a consumer that closes the pipe: status 0, no diagnostic
         check(format!("rg {} needle big.txt | <closed after 10 bytes>", j), &run_closed_pipe(&rg, &dir, &[j, "needle", "big.txt"], 10), 0, None, false, Some(true));
         check(format!("rg {} needle hit.txt big.txt | <closed>", j), &run_closed_pipe(&rg, &dir, &[j, "needle", "hit.txt", "big.txt"], 10), 0, None, false, Some(true));
+        // the consumer is gone before anything was written
+        check(format!("rg {} needle hit.txt big.txt | <closed at once>", j), &run_closed_pipe(&rg, &dir, &[j, "needle", "hit.txt", "big.txt"], 0), 0, None, false, Some(true));
+        check(format!("rg {} -l needle hit.txt big.txt | <closed at once>", j), &run_closed_pipe(&rg, &dir, &[j, "-l", "needle", "hit.txt", "big.txt"], 0), 0, None, false, Some(true));
         check(format!("rg {} --json needle big.txt | <closed>", j), &run_closed_pipe(&rg, &dir, &[j, "--json", "needle", "big.txt"], 10), 0, None, false, Some(true));
         check(format!("rg {} --pre ./pre.sh needle big.txt | <closed>", j), &run_closed_pipe(&rg, &dir, &[j, "--pre", "./pre.sh", "needle", "big.txt"], 10), 0, None, false, Some(true));
         check(format!("rg {} -L needle links (dangling symlink while following links)", j), &run(&rg, &dir, &[j, "-L", "needle", "links"]), 2, Some("needle one"), false, Some(false));
